@@ -88,6 +88,73 @@ func c12PairPredicates(a, b alpha.Val) (key, detail string) {
 	return "", ""
 }
 
+// c12NeighbourCase: Equals / IsZero against every canonical element that differs from a in exactly one bit of
+// its stored limbs (bits 0, 31, 32, 63 of each limb) - comparisons that look at only part of a limb fail here.
+func c12NeighbourCase(a alpha.Val) (key, detail string, n int) {
+	u := fe(a.Raw)
+
+	for i := 0; i < 4; i++ {
+		for _, k := range []uint{0, 31, 32, 63} {
+			raw := a.Raw
+			raw[i] ^= 1 << k
+
+			if !canonicalLimbs(raw, pLimbs) {
+				continue
+			}
+
+			n++
+			v := fe(raw)
+
+			if got := u.Equals(v); got != 0 {
+				return "field.Equals/wrong", fmt.Sprintf("limbs %x vs %x (differ in bit %d of limb %d): Equals=%d", a.Raw, raw, k, i, got), n
+			}
+
+			if got := v.Equals(u); got != 0 {
+				return "field.Equals/wrong", fmt.Sprintf("limbs %x vs %x: Equals=%d", raw, a.Raw, got), n
+			}
+
+			if a.V.Sign() == 0 {
+				if got := v.IsZero(); got != 0 {
+					return "field.IsZero/wrong", fmt.Sprintf("limbs %x: IsZero=%d", raw, got), n
+				}
+			}
+		}
+	}
+
+	return "", "", n
+}
+
+// c12PredicateCase: the cheap unary operations, run on the richer (level 2) alphabet.
+func c12PredicateCase(a alpha.Val) (key, detail string) {
+	u := fe(a.Raw)
+
+	if got := u.IsZero(); got != uint64(b2i(a.V.Sign() == 0)) {
+		return "field.IsZero/wrong", fmt.Sprintf("a=%x IsZero=%d", a.V, got)
+	}
+
+	if got := u.Sgn0(); got != uint64(a.V.Bit(0)) {
+		return "field.Sgn0/wrong", fmt.Sprintf("a=%x Sgn0=%d", a.V, got)
+	}
+
+	if got := u.Bytes(); !bytes.Equal(got, ref.Bytes32(a.V)) {
+		return "field.Bytes/not-canonical", fmt.Sprintf("a=%x Bytes=%x", a.V, got)
+	}
+
+	if ok, why := feIs(field.New().Negate(u), ref.Fp.Neg(a.V)); !ok {
+		return "field.Negate/wrong-result", fmt.Sprintf("a=%x: %s", a.V, why)
+	}
+
+	if ok, why := feIs(field.New().Square(u), ref.Fp.Sqr(a.V)); !ok {
+		return "field.Square/wrong-result", fmt.Sprintf("a=%x: %s", a.V, why)
+	}
+
+	if got := u.Equals(fe(a.Raw)); got != 1 {
+		return "field.Equals/wrong", fmt.Sprintf("a=%x not equal to itself", a.V)
+	}
+
+	return "", ""
+}
+
 func c12UnaryCase(a alpha.Val) (key, detail string) {
 	for _, alias := range []bool{false, true} {
 		for _, c := range []struct {
@@ -146,13 +213,24 @@ func c12UnaryCase(a alpha.Val) (key, detail string) {
 	return "", ""
 }
 
-func c12SqrtCase(a, b alpha.Val) (key, detail, class string) {
+// c12SqrtCase: shape is one of distinct, e=u, e=v, u=v (receiver / argument aliasing).
+func c12SqrtCase(a, b alpha.Val, shape string) (key, detail, class string) {
 	u, v := fe(a.Raw), fe(b.Raw)
 	e := field.New()
+
+	switch shape {
+	case "e=u":
+		e = u
+	case "e=v":
+		e = v
+	case "u=v":
+		v, b = u, a
+	}
+
 	ret, flag := e.SqrtRatio(u, v)
 	w := ref.Fp.Mul(a.V, ref.Fp.Inv0(b.V))
 	sq := ref.Fp.IsSquare(w)
-	desc := fmt.Sprintf("u=%x v=%x", a.V, b.V)
+	desc := fmt.Sprintf("u=%x v=%x shape=%s", a.V, b.V, shape)
 
 	if ret != e {
 		return "field.SqrtRatio/returns-other-pointer", desc, ""
@@ -180,7 +258,7 @@ func c12SqrtCase(a, b alpha.Val) (key, detail, class string) {
 		return "field.SqrtRatio/wrong-root/" + class, fmt.Sprintf("%s y^2=%x want %x", desc, y2, target), class
 	}
 
-	if [4]uint64(u.E) != a.Raw || [4]uint64(v.E) != b.Raw {
+	if (e != u && [4]uint64(u.E) != a.Raw) || (e != v && [4]uint64(v.E) != b.Raw) {
 		return "field.SqrtRatio/operand-changed", desc, class
 	}
 
@@ -350,6 +428,27 @@ func C12(r *ev.Report) {
 		}
 	})
 
+	rich := alpha.Values(ref.P, 2)
+	r.Bound("predicate_values", len(rich))
+	r.States.Add(int64(len(rich)))
+
+	r.ParFor(len(rich), func(_, i int) {
+		r.Transitions.Add(6)
+		r.Evals.Add(1)
+
+		if key, detail := c12PredicateCase(rich[i]); key != "" {
+			r.Violation(key, detail, Case{"op": "predicate", "a": hx(rich[i].V)})
+		}
+
+		key, detail, n := c12NeighbourCase(rich[i])
+		r.Transitions.Add(int64(2 * n))
+		r.Count("single_bit_neighbours", int64(n))
+
+		if key != "" {
+			r.Violation(key, detail, Case{"op": "neighbour", "a": hx(rich[i].V)})
+		}
+	})
+
 	// SqrtRatio
 	us := vals
 	vs := alpha.Thin(vals, 32)
@@ -372,11 +471,13 @@ func C12(r *ev.Report) {
 			r.Transitions.Add(1)
 			r.Evals.Add(1)
 
-			key, detail, class := c12SqrtCase(us[i], v)
-			c["sqrt_ratio_"+class]++
+			for _, shape := range []string{"distinct", "e=u", "e=v", "u=v"} {
+				key, detail, class := c12SqrtCase(us[i], v, shape)
+				c["sqrt_ratio_"+class]++
 
-			if key != "" {
-				r.Violation(key, detail, Case{"op": "sqrt", "a": hx(us[i].V), "b": hx(v.V)})
+				if key != "" {
+					r.Violation(key, detail, Case{"op": "sqrt", "a": hx(us[i].V), "b": hx(v.V), "shape": shape})
+				}
 			}
 		}
 
@@ -424,7 +525,7 @@ func C12(r *ev.Report) {
 	r.Sample(Case{"op": "bin", "opi": "2", "a": hx(vals[len(vals)-1].V), "b": hx(vals[len(vals)/2].V), "shape": "e=u"})
 	r.Sample(Case{"op": "sqrt", "a": hx(us[len(us)/2].V), "b": hx(vs[3].V)})
 	r.Sample(Case{"op": "wide", "a": hb(wide[len(wide)/2][:])})
-	r.RequireNonVacuous("sqrt_ratio_square", "sqrt_ratio_non-square", "parse_input_ge_p", "parse_input_lt_p")
+	r.RequireNonVacuous("sqrt_ratio_square", "sqrt_ratio_non-square", "parse_input_ge_p", "parse_input_lt_p", "single_bit_neighbours")
 }
 
 func valOfP(v *big.Int) alpha.Val {
@@ -446,8 +547,12 @@ func init() {
 			key, detail = c12PairPredicates(valOfP(unhx(c["a"])), valOfP(unhx(c["b"])))
 		case "unary":
 			key, detail = c12UnaryCase(valOfP(unhx(c["a"])))
+		case "predicate":
+			key, detail = c12PredicateCase(valOfP(unhx(c["a"])))
+		case "neighbour":
+			key, detail, _ = c12NeighbourCase(valOfP(unhx(c["a"])))
 		case "sqrt":
-			key, detail, _ = c12SqrtCase(valOfP(unhx(c["a"])), valOfP(unhx(c["b"])))
+			key, detail, _ = c12SqrtCase(valOfP(unhx(c["a"])), valOfP(unhx(c["b"])), c["shape"])
 		case "parse":
 			key, detail = c12ParseCase(unhx(c["a"]))
 		case "wide":
